@@ -5,9 +5,16 @@ pub mod c03;
 pub mod c05;
 pub mod c06;
 pub mod c10;
+pub mod c11;
 pub mod c12;
+pub mod c13;
 pub mod c14;
+pub mod c15;
 pub mod c16;
+pub mod c17;
+pub mod c18;
+pub mod c19;
+pub mod c20;
 pub mod dispatch;
 pub mod c07;
 pub mod c08;
@@ -40,7 +47,7 @@ pub struct PropDef {
 }
 
 pub fn all_props() -> Vec<&'static PropDef> {
-    vec![&c01::DEF, &c02::DEF, &c03::DEF, &c03::DEF04, &c05::DEF, &c06::DEF, &c10::DEF, &c12::DEF, &c14::DEF, &c16::DEF, &c07::DEF, &c08::DEF, &c09::DEF]
+    vec![&c01::DEF, &c02::DEF, &c03::DEF, &c03::DEF04, &c05::DEF, &c06::DEF, &c10::DEF, &c11::DEF, &c12::DEF, &c13::DEF, &c14::DEF, &c15::DEF, &c16::DEF, &c17::DEF, &c18::DEF, &c19::DEF, &c20::DEF, &c07::DEF, &c08::DEF, &c09::DEF]
 }
 
 pub fn build_name() -> String {
